@@ -595,7 +595,12 @@ func (p *program) render2() (src string, faultLine, faultLineMax int) {
 	if p.Mode == "php" {
 		sb.WriteString("<?php\n")
 	}
-	sb.WriteString("$v0 = 1;\n")
+	if p.Mode == "html" {
+		// a `<!DOCTYPE` document: lexed by the HtmlLexer, run as a template
+		sb.WriteString("<!DOCTYPE html>\n<html>\n<body>\n")
+	} else {
+		sb.WriteString("$v0 = 1;\n")
+	}
 	for _, c := range p.Head {
 		sb.WriteString(c.Text)
 	}
@@ -608,6 +613,9 @@ func (p *program) render2() (src string, faultLine, faultLineMax int) {
 		for _, c := range p.Tail {
 			sb.WriteString(c.Text)
 		}
+	}
+	if p.Mode == "html" {
+		sb.WriteString("</body>\n</html>\n")
 	}
 	src = sb.String()
 	faultLineMax = faultLine
@@ -725,6 +733,7 @@ type quarantine struct {
 	byteNewline     bool // no byte literal with a line break inside
 	nonUTF8String   bool // no string literal with bytes that are not UTF-8
 	staticInClosure bool // no static call on an undefined class inside a closure body
+	htmlMLInterp    bool // no failing interpolation on a later line of an HTML text run
 	altLooseLayout  bool // no alternative-syntax header with a line break between keyword and `(` or between `)` and `:`
 }
 
